@@ -4,6 +4,7 @@ package main
 // Every type here has a JSON form (for replay files) and a Coq form (for case files).
 
 import (
+	"sync"
 	"context"
 	"errors"
 	"fmt"
@@ -152,6 +153,8 @@ type AnyList []any
 type world struct {
 	toks  map[int]*Tok
 	store *flyt.SharedStore
+	wmu    sync.Mutex
+	writes int
 	ctx   context.Context
 }
 
@@ -172,6 +175,10 @@ func actName(a int) flyt.Action {
 		return ""
 	case 1:
 		return flyt.DefaultAction
+	case 8:
+		return " " // an action that is not empty, only looks it
+	case 9:
+		return "\t\n"
 	default:
 		return flyt.Action(fmt.Sprintf("a%d", a))
 	}
@@ -183,6 +190,10 @@ func actID(a flyt.Action) int {
 		return 0
 	case flyt.DefaultAction:
 		return 1
+	case " ":
+		return 8
+	case "\t\n":
+		return 9
 	}
 	var n int
 	if _, err := fmt.Sscanf(string(a), "a%d", &n); err == nil && string(a) == fmt.Sprintf("a%d", n) {
@@ -302,7 +313,10 @@ func (w *world) encode(x any) Val {
 		}
 		return Val{T: "other"}
 	case *flyt.SharedStore:
-		if t == w.store {
+		// the store of the run, holding exactly what the callbacks of the scenario have written
+		// so far (every prep / post callback writes one key of its own): the engine itself never
+		// writes to the store, removes from it or swaps it
+		if t == w.store && w.storeIntact() {
 			return Val{T: "store"}
 		}
 		return Val{T: "other"}
@@ -342,6 +356,32 @@ func (w *world) encodeList(rs []flyt.Result) []Val {
 		l[i] = w.encodeRes(r)
 	}
 	return l
+}
+
+// storeIntact: the store holds exactly the keys written by the scenario's callbacks so far
+func (w *world) storeIntact() bool {
+	w.wmu.Lock()
+	n := w.writes
+	w.wmu.Unlock()
+	if w.store.Len() != n {
+		return false
+	}
+	if n > 0 && !w.store.Has(fmt.Sprintf("cb%d", n-1)) {
+		return false
+	}
+	return true
+}
+
+// noteCallback: a prep / post callback leaves its mark in the store
+func (w *world) noteCallback(s *flyt.SharedStore) {
+	if s == nil {
+		return
+	}
+	w.wmu.Lock()
+	k := w.writes
+	w.writes++
+	w.wmu.Unlock()
+	s.Set(fmt.Sprintf("cb%d", k), k)
 }
 
 // itemKey mirrors Script.item_key.
